@@ -437,6 +437,7 @@ func c11(p *model.Prog, r *report.Result) {
 	r.Check(okNeed, "C11.R3", fkey(rt, "layout", "needed"), p.Pos(rt.Pos()), "reader consumes DataSize+4 bytes after the header", "ReadTag no longer consumes body plus the 4-byte previous-tag-size")
 
 	w5CacheKind(p, r, "C11.R8")
+	w6FlvTsBits(p, r, "C11.R9")
 
 	// ---------------------------------------------------------------- R4
 	r.Rule("C11.R4", "httpflv.FlvHeader is initialised to 46 4c 56 01 05 00 00 00 09 00 00 00 00 (13 bytes = flvHeaderSize) and nothing else stores to it")
